@@ -1366,6 +1366,16 @@ theorem by_name_history_independent (env : Env) (S : ElfStructs) (data : Bytes) 
   unfold Model.SigCache.stateless nameScan getSymbolByName nameLook
   cases iterSymbols env S data ifc d iterSegs le <;> rfl
 
+/-- composed with `by_name_of_enumeration`: over any object whose enumeration is exact, after ANY history of
+    `get_symbol_by_name` calls every answer is "all enumerated symbols bearing the name, in index order, or None" -/
+theorem by_name_of_enumeration_any_history (c : ElfCfg) (data : Bytes) (ifc : FileIfc) (d : Dyn)
+    (iterSegs : R (List (String × Val))) (L : List (Bytes × Val))
+    (hit : iterSymbols elfEnv (S c) data ifc d iterSegs c.le = .ok L)
+    (hget : ∀ i (h : i < L.length), getSymbol elfEnv (S c) data ifc d i = .ok L[i]) (qs : List Bytes) :
+    (nameHist elfEnv (S c) data ifc d iterSegs c.le qs).1 = qs.map (fun q => .ok (byNameOf L q)) := by
+  rw [by_name_history_independent]
+  exact List.map_congr_left (fun q _ => by_name_of_enumeration c data ifc d iterSegs L hit hget q)
+
 /-- a walk that raised publishes no name map: the next call walks again (fix d3667cb: a half-built map used to answer) -/
 theorem by_name_failed_walk_publishes_nothing (env : Env) (S : ElfStructs) (data : Bytes) (ifc : FileIfc) (d : Dyn)
     (iterSegs : R (List (String × Val))) (le : Bool) (e : Err)
